@@ -1,5 +1,5 @@
 SPECIFICATION Spec
-CONSTANT K = 5
+CONSTANT K = 6
 INVARIANTS LinearMatchesDef FastMatchesDef MethodsAgree DefSymmetric DefZeroOnSelf DefNonNegative DefPartition
 PROPERTIES Terminates Progress
 CHECK_DEADLOCK FALSE
